@@ -727,10 +727,16 @@ func TestC13(t *testing.T) {
 // first again): what each of them gets must be what it gets from a fresh
 // handler of its own.
 func c13MixedPeers(t *testing.T, c *ev.Collector) {
-	mixedPeers(t, c, "TestC13", nil, []mixedPeer{{"", "gzip"}, {"gzip", ""}, {"gzip", "gzip"}, {"", ""}, {"", "identity"}, {"identity", "gzip"}})
+	mixedPeers(t, c, "TestC13", nil, []mixedPeer{{enc: "", accept: "gzip"}, {enc: "gzip", accept: ""}, {enc: "gzip", accept: "gzip"}, {enc: "", accept: ""}, {enc: "", accept: "identity"}, {enc: "identity", accept: "gzip"}})
 }
 
-type mixedPeer struct{ enc, accept string }
+type mixedPeer struct {
+	enc, accept string
+	// httpAccept: a plain HTTP Accept-Encoding header (what net/http's own
+	// transport adds to every request).  For everything but unary Connect it is
+	// not the protocol's advertisement.
+	httpAccept string
+}
 
 // mixedPeers runs every ordered pair of peers of the menu (then the first
 // again) through one shared handler built with opts and compares each answer
@@ -766,6 +772,9 @@ func mixedPeers(t *testing.T, c *ev.Collector, test string, opts []connect.Handl
 		if pe.accept != "" {
 			req.Header.Set(accH, pe.accept)
 		}
+		if pe.httpAccept != "" && accH != "Accept-Encoding" {
+			req.Header.Set("Accept-Encoding", pe.httpAccept)
+		}
 		rec := httptest.NewRecorder()
 		g := Guarded(func() { h.ServeHTTP(rec, req) })
 		if g.Hung || g.Panicked {
@@ -777,7 +786,20 @@ func mixedPeers(t *testing.T, c *ev.Collector, test string, opts []connect.Handl
 		for _, m := range rs.Msgs {
 			msgs = append(msgs, fmt.Sprintf("%x", m))
 		}
-		return fmt.Sprintf("status=%d enc=%q code=%d msg=%q msgs=%v problems=%v", status, header.Get(encH), rs.End.Code, rs.End.Message, msgs, rs.Problems)
+		// the response may be compressed only with what the peer used or advertised in the protocol's own headers
+		unadvertised := ""
+		if re := header.Get(encH); re != "" && re != "identity" && re != pe.enc {
+			named := false
+			for _, a := range strings.FieldsFunc(pe.accept, func(r rune) bool { return r == ',' || r == ' ' }) {
+				if a == re {
+					named = true
+				}
+			}
+			if !named {
+				unadvertised = " UNADVERTISED-RESPONSE-ENCODING"
+			}
+		}
+		return fmt.Sprintf("status=%d enc=%q code=%d msg=%q msgs=%v problems=%v%s", status, header.Get(encH), rs.End.Code, rs.End.Message, msgs, rs.Problems, unadvertised)
 	}
 	mk := func(kind Kind) http.Handler {
 		return NewHandler(kind, func(ctx context.Context, s HStream) error {
@@ -819,6 +841,13 @@ func mixedPeers(t *testing.T, c *ev.Collector, test string, opts []connect.Handl
 							if pair[0] != pair[1] {
 								bad = true
 								c.Violation(test, "same-as-solo", "differs", tags, key, "%s: request #%d through the shared handler (peers: first enc=%q accept=%q, second enc=%q accept=%q) observed\\n    %s\\n  from a handler of its own it observes\\n    %s", key, n+1, first.enc, first.accept, second.enc, second.accept, pair[0], pair[1])
+							}
+						}
+						for n, got := range []string{got1, got2, got3} {
+							if strings.Contains(got, "UNADVERTISED-RESPONSE-ENCODING") {
+								bad = true
+								c.Violation(test, "only-advertised-encodings", "unadvertised", tags, key, "%s: request #%d: the response is compressed with an algorithm the peer neither used nor named in the protocol's accept header: %s", key, n+1, got)
+								break
 							}
 						}
 						if bad {
